@@ -124,6 +124,9 @@ def generate(seed: int, tier: str = "quick") -> dict:
     opts = {"extra_triggers": rp.choice([0, 0, 1, 2, 3]), "trigger_phase": rp.random() < 0.5}
     faults = []
     _add_expiring(R.sub(seed, "expiring"), opts, labels, faults)
+    if interval == "1min" and R.sub(seed, "second_actuator").random() < 0.12:
+        opts["second_actuator"] = True
+        faults.append({"kind": "market_objects_reused_by_a_second_actuator"})
     return {"property": ID, "seed": seed, "world": world, "program": program, "faults": faults, "opts": opts}
 
 
@@ -421,8 +424,17 @@ def _raw_result(sim, outcome):
 def execute(scenario):
     if scenario.get("donor"):
         DN.prepare(scenario["donor"])
-    sim = Sim(scenario, LoopOracle(), trace=True, strategy_cls=TracedStrategy)
-    return sim.run()
+    sim = Sim(scenario, LoopOracle(), trace=True, strategy_cls=TracedStrategy).run()
+    if scenario.get("opts", {}).get("second_actuator") and sim.crash is None and not sim.violations:
+        # the same market objects attached to a second, fresh Actuator (a notebook that builds a new back test around the
+        # markets it already has): that run's records, notifications and rows are that run's
+        sim2 = Sim(scenario, LoopOracle(), trace=True, strategy_cls=TracedStrategy, reuse=sim).run()
+        sim.count("fault:market_objects_reused_by_a_second_actuator")
+        sim.event("second_actuator", sim2.log_digest())
+        for v in sim2.violations:
+            sim.violate(v["oracle"], v["site"] + ":second_actuator", **dict(v["detail"]))
+        sim.states |= sim2.states
+    return sim
 
 
 def abstract(scenario, sim):
